@@ -11,6 +11,11 @@ for pid in sys.argv[2:]:
     if not os.path.exists(wt):
         subprocess.run(["git", "-C", "/repo", "worktree", "add", "-q", "--detach", wt, "HEAD"], check=True)
     os.makedirs(os.path.join(wt, "_seed"), exist_ok=True)
+    avoid = ""
+    if os.path.exists("/var/tmp/avoid.json"):
+        av = json.load(open("/var/tmp/avoid.json")).get(pid, [])
+        if av:
+            avoid = "Earlier rounds already changed these places, so choose OTHER functions / mechanisms this time: " + " | ".join(av) + ".\n"
     prompt = f"""You are testing how robust a Go library is against subtle regressions. Work ONLY inside the git worktree {wt} (a checkout of the library minio/simdjson-go, package simdjson, at its current commit). Do not read or touch anything under /verif or /repo, and do not look at other directories under {root}. There is no network: always export GOFLAGS=-mod=mod GOPROXY=off GOSUMDB=off GOTOOLCHAIN=local before go commands. NEVER use `git stash` (the stash is shared between worktrees); to return to the pristine tree use `git diff > file` and `git checkout -- .`.
 
 The library is supposed to satisfy this property:
@@ -25,7 +30,7 @@ Your task: produce TWO different, realistic, subtle source changes (the kind a m
  (b) still passes the existing baseline tests: `go test -vet=off -count=1 -run '{BASE}' .` (the rest of the repository's test files do not run in this sandbox's baseline because one test needs the network; you may use them to learn the API),
  (c) BREAKS the property above for some input / history / schedule, ideally a rare one (a boundary size, a particular position, a particular sequence of calls) rather than every input, and
  (d) is different in kind from the obvious single-character mutation of the most central line; prefer changes in glue code, boundary handling, bookkeeping across buffers/blocks/calls, or rarely taken branches. The two changes must be independent of each other and touch different mechanisms.
-Do not change test files, do not add build tags, do not break compilation, and keep each change small (a few lines).
+{avoid}Do not change test files, do not add build tags, do not break compilation, and keep each change small (a few lines).
 
 For each change n in (1, 2) write into {wt}/_seed/:
   n.diff              -- `git diff` of the change against the pristine tree (only library files, apply-able with `git apply` at the worktree root)
